@@ -130,7 +130,8 @@ theorem printed_binding_is_one_token (q : Rune) (name : List Rune) (hq : q.cp = 
 
 open BW.Proofs.LexPrinted in
 /-- `/type<id>`: the type holds no `<`, `>`, `\\`; the ID no `<`, `>` (what `node.NewID` accepts — backslashes
-    anywhere, also last). -/
+    anywhere, also last). The hypothesis on the type excludes a real point: `node.NewType` accepts `/a\`, whose node prints
+    as `/a\<x>`, and the lexer — which reads `\<` as an escaped `<` — answers one ERROR token (known finding D38). -/
 theorem printed_node_is_one_token (sl lt gt : Rune) (ty id : List Rune)
     (hsl : sl.cp = 47) (hsd : sl.digit = false) (hlt : lt.cp = 60) (hgt : gt.cp = 62)
     (hty : ∀ x ∈ ty, x.cp ≠ 60 ∧ x.cp ≠ 62 ∧ x.cp ≠ 92) (hid : ∀ x ∈ id, x.cp ≠ 60 ∧ x.cp ≠ 62) :
